@@ -25,12 +25,21 @@ CLAIMED = {
  "C09": ("exploration",
    "Seeded search over register / re-register / unregister (exact, other case, unknown, twice, at 5-5000 ms after register) / shutdown histories on 1-3 interfaces; status replies, goodbye content per interface and family (TTL 0, names, addresses of that link), absence where never announced, byte-identical repeat at +120 ms, and silence afterwards are read from the wire.",
    "7.9", "'Announced on an interface' is read from the wire; services renamed by a conflict are judged by C08, not here."),
+ "C10": ("fault_enumeration",
+   "Responder side: registration worlds whose injected queries list subsets of the daemon's own records as known answers with TTL on the grid {0, 1, half-1, half, half+1, full, u32::MAX} and one-field variants (class, RDATA, owner, flush bit, wrong section); each expected record is classified must-be-absent / must-be-present / not judged (TTL = half) and a suppressed PTR must take its additionals along. Querier side: shared PTRs (and unique SRV/TXT/A) delivered so that scheduled queries land at half-life -2..+2 ms, +-100, +-400 ms; every listed known answer must be a cached non-unique record with >= half its life left and the remaining TTL written, every certainly cached shared record with > half left must be listed, on every interface and family.",
+   "7.10", "Boundary grids are enumerated; worlds around them are sampled. Two responder-side behaviours (subtype question vs base-type known answer; owner-name case) are known findings."),
+ "C11": ("fault_enumeration",
+   "Every TTL 1..60 s (quick) / 1..300 s (thorough) plus 8 large values up to u32::MAX is used as the TTL under test for PTR, SRV, TXT or address records of a browsed service or a resolved host; afterwards the peer stays silent, answers only the k-th refresh query, re-sends the record at a seeded age, or sends a cache-flush sibling at ages on a 100 ms grid plus 999/1000/1001 ms. Strict profile: per question the observed query times equal back-off schedule + mark(80/85/90/95) of every record life (host search: mark(80)); stall profile: at most one query per mark passed. Use-window and flush clauses are decided by the C03/C17 oracles evaluated on the same histories.",
+   "7.11", "Record lives are computed from the time the daemon read the packet; follow-up queries after an expiry are allowed at +500/1000/1500 ms."),
  "C12": ("exploration",
    "Metamorphic simulation: every seeded world (search, register, browse, ipcheck, tiebreak families) is executed twice on the virtual clock, once silent and once with an additional wake-up every 37 / 211 / 1009 ms although nothing is due; the packet and event histories (with times) must be identical, so any work that had no wake-up request of its own shows as a difference. The silent run is also scanned for runs of do-nothing wake-ups requested for 'now' (spin), with the interface-check interval at default, huge, zero and changed at run time.",
    "7.12", "Relies on extra wake-ups being no-ops for a correct daemon; only work due before the horizon can be revealed; packets sent within one millisecond are compared as multisets."),
  "C13": ("exploration",
    "Seeded interleavings of browse / re-browse / browse_cache / stop / resolve_hostname (timeouts, letter cases) / stop_resolve_hostname / shutdown placed at, just before and after retransmission times, against answering peers, observed for minutes to hours after each stop: per-channel protocol (SearchStarted first, Found before Resolved, SearchStopped once and last), no query for a stopped type or host on the wire, cache forgotten (cache-only browse right after a stop), replaced browse hands over.",
    "7.13", "A search counts as stopped from the end of the consuming step; refresh queries on behalf of a cache-only browse are a known finding."),
+ "C17": ("exploration",
+   "Seeded worlds with resolve_hostname in all letter-case classes and timeouts {none, 0, 1, 500, 1000, 2999, 3000, 3001, 10^6} against a (multi-homed) peer that spells the name in its own case and whose address set changes (added with/without cache-flush, goodbye, TTL 1..120 s), strict / latency / lossy profiles: every reported address justified by a live record learned on the tagged interface; new addresses reported in the accepting step; removals at the end of life (strict: that ms); cached addresses replayed at once; no query at or after the deadline.",
+   "7.17", "Completeness and removal timing only for definitely-accepted deliveries in fault-free networks; soundness in all profiles."),
  "C19": ("exploration",
    "Seeded search over search histories (browse / resolve_hostname / stop / re-browse / receiver drop) on 1-3 interface hosts over hours to days of virtual time. Silent-network runs demand ms-exact equality between the queries on the wire (per interface and address family) and the 1,2,4...2048,3600 s schedule derived from the call history; responder runs demand that every query is covered by the schedule or a refresh/follow-up/verify allowance. Sampling, not proof; the schedule space per search is small and the cap (hour 1+) is reached in most runs.",
    "7.19", "Trusts the seam (send_to capture, virtual clock), the independent wire parser, and that the lock-step gate does not change loop behaviour; allowances in responder runs are upper bounds."),
